@@ -1,5 +1,299 @@
-import Pandora.Model.C07
-import Pandora.Spec.C07
+/-
+C07 — ammo decoding fidelity: the property theorems.
+
+For EVERY list of entries, EVERY permitted layout, EVERY limit `k` (i.e. any number of passes, complete or not) and
+both provider modes (streaming / preload) the decoder models of `Pandora.Model.C07` deliver exactly the entries that
+were rendered into the file, in file order, wrapping around at end of file, each with the header lines that precede
+it in the file (and nothing from the previous pass).  The models are tied to the real decoders by the differential
+harness (harness/cmd/c07, `Pandora.Drv.C07`); the helper lemmas are in `Pandora/Proofs/C07*.lean`.
+-/
+import Pandora.Proofs.C07Deliver
 
 namespace Pandora.Props.C07
+open Pandora.Model.C07 Pandora.Spec.C07 Pandora.Proofs.C07
+
+/-! ### statement-level definitions -/
+
+/-- what a provider delivers under `Limit = k` when one pass over the file yields `pass`:
+the pass repeated and cut at `k`; a file without entries is the error `no ammo in file` -/
+def cycled {α : Type} (pass : List α) (k : Nat) : List α × Stop :=
+  if pass.isEmpty then ([], .err .noammo) else (cycleTake pass k, .eof)
+
+/-- a well-formed ammo file description: entries and layout within what the format permits
+(uri: additionally every line fits a `bufio.Scanner` token, 64 KiB) -/
+def wellFormed (f : Fmt) (items : List Item) (lay : Layout) : Prop :=
+  itemsOK f items = true ∧ layoutOK lay = true ∧ (f = .uri → linesFit (render f items lay) = true)
+
+/-- the delivery of any of the three line formats -/
+inductive Delivered where
+  | ammo (r : List Ammo × Stop)
+  | frames (r : List RawAmmo × Stop)
+deriving DecidableEq
+
+/-- the provider model for format `f` on the bytes `file` -/
+def decodeAll (f : Fmt) (file : Bytes) (k : Nat) (pre : Bool) : Delivered :=
+  match f with
+  | .uri => .ammo (uriDeliver file k pre)
+  | .uripost => .ammo (uripostDeliver true file k pre)
+  | .raw => .frames (rawDeliver file k pre)
+
+/-- what the ENTRIES say must be delivered (no file bytes, no layout involved) -/
+def expectedAll (f : Fmt) (items : List Item) (k : Nat) : Delivered :=
+  match f with
+  | .raw => .frames (cycled (expFrames items) k)
+  | _ => .ammo (cycled (expAmmo f [] items) k)
+
+/-- number of request entries (header lines are not entries) -/
+def countReqs : List Item → Nat
+  | [] => 0
+  | .hdr _ _ :: r => countReqs r
+  | _ :: r => countReqs r + 1
+
+/-! ### one pass over a rendered file -/
+
+/-- uri: one pass of the scanner over the rendered file yields exactly the entries, with their effective headers -/
+theorem C07_uri_pass (items : List Item) (lay : Layout)
+    (hi : itemsOK .uri items = true) (hl : layoutOK lay = true) (hf : linesFit (render .uri items lay) = true) :
+    uriPass (render .uri items lay) [] = (expAmmo .uri [] items, .eof) := by
+  obtain ⟨hlead, hper, htrail⟩ := layoutOK_parts hl
+  have hfits := fits_of_linesFit hf
+  unfold render at hfits ⊢
+  obtain ⟨hb, hfits'⟩ := uriPass_blanks lay.lead _ [] hlead hfits
+  rw [hb]
+  exact uriPass_renderItems lay.finalNL lay.trail htrail items lay.per [] hi hper hfits'
+
+/-- uripost: one pass of the (repaired) block reader yields exactly the entries with their bodies -/
+theorem C07_uripost_pass (items : List Item) (lay : Layout)
+    (hi : itemsOK .uripost items = true) (hl : layoutOK lay = true) :
+    uripostPass true (render .uripost items lay) [] = (expAmmo .uripost [] items, .eof) := by
+  obtain ⟨hlead, hper, htrail⟩ := layoutOK_parts hl
+  unfold render
+  rw [upPass_blanks lay.lead _ [] hlead]
+  exact upPass_renderItems lay.finalNL lay.trail htrail items lay.per [] hi hper
+
+/-- raw: one pass finds exactly the frames, whatever bytes they contain -/
+theorem C07_raw_pass (items : List Item) (lay : Layout)
+    (hi : itemsOK .raw items = true) (hl : layoutOK lay = true) :
+    rawPass (render .raw items lay) = (expFrames items, .eof) := by
+  obtain ⟨hlead, hper, htrail⟩ := layoutOK_parts hl
+  unfold render
+  rw [rawPass_blanks lay.lead _ hlead]
+  exact rawPass_renderItems lay.finalNL lay.trail htrail items lay.per hi hper
+
+/-! ### round trips: all entry lists, all layouts, all limits (any number of passes), both modes -/
+
+/-- **uri**: the provider delivers the entries of the file, in file order, wrapping around, each with the header
+lines that precede it in the file (accumulated from nothing at every pass) -/
+theorem C07_uri_roundtrip (items : List Item) (lay : Layout) (k : Nat) (pre : Bool)
+    (hi : itemsOK .uri items = true) (hl : layoutOK lay = true) (hf : linesFit (render .uri items lay) = true) :
+    uriDeliver (render .uri items lay) k pre = cycled (expAmmo .uri [] items) k := by
+  unfold uriDeliver
+  rw [C07_uri_pass items lay hi hl hf, deliver_eof]; rfl
+
+/-- **uripost**: the same with bodies of arbitrary bytes (newlines, `[`, NUL, empty, lines that look like entries);
+a last entry without trailing newline is kept -/
+theorem C07_uripost_roundtrip (items : List Item) (lay : Layout) (k : Nat) (pre : Bool)
+    (hi : itemsOK .uripost items = true) (hl : layoutOK lay = true) :
+    uripostDeliver true (render .uripost items lay) k pre = cycled (expAmmo .uripost [] items) k := by
+  unfold uripostDeliver
+  rw [C07_uripost_pass items lay hi hl, deliver_eof]; rfl
+
+/-- **raw**: exactly the frames with their tags, whatever the frames contain -/
+theorem C07_raw_frames (items : List Item) (lay : Layout) (k : Nat) (pre : Bool)
+    (hi : itemsOK .raw items = true) (hl : layoutOK lay = true) :
+    rawDeliver (render .raw items lay) k pre = cycled (expFrames items) k := by
+  unfold rawDeliver
+  rw [C07_raw_pass items lay hi hl, deliver_eof]; rfl
+
+/-- all three formats at once: the delivery is the function `expectedAll` of the ENTRIES -/
+theorem C07_roundtrip (f : Fmt) (items : List Item) (lay : Layout) (k : Nat) (pre : Bool)
+    (h : wellFormed f items lay) :
+    decodeAll f (render f items lay) k pre = expectedAll f items k := by
+  obtain ⟨hi, hl, hf⟩ := h
+  cases f with
+  | uri => simp only [decodeAll, expectedAll]; rw [C07_uri_roundtrip items lay k pre hi hl (hf rfl)]
+  | uripost => simp only [decodeAll, expectedAll]; rw [C07_uripost_roundtrip items lay k pre hi hl]
+  | raw => simp only [decodeAll, expectedAll]; rw [C07_raw_frames items lay k pre hi hl]
+
+/-- **layout never matters**: two permitted layouts of the same entries (blank lines, surrounding blanks, CRLF,
+padding inside header lines, final newline present or not, trailing blanks) are delivered identically -/
+theorem C07_layout_invariant (f : Fmt) (items : List Item) (lay lay' : Layout) (k : Nat) (pre pre' : Bool)
+    (h : wellFormed f items lay) (h' : wellFormed f items lay') :
+    decodeAll f (render f items lay) k pre = decodeAll f (render f items lay') k pre' := by
+  rw [C07_roundtrip f items lay k pre h, C07_roundtrip f items lay' k pre' h']
+
+/-- why the repair df9a0d4 was needed: the block reader BEFORE it (`uripostPass false`) discards whatever follows the
+last newline of the file — a last entry `0 /b tag` without final newline was dropped (compare `C07_uripost_pass`) -/
+theorem C07_unrepaired_uripost_drops_last (line : Bytes) (h : Hdrs) (hl : LF ∉ line) :
+    uripostPass false line h = ([], .eof) := by
+  cases line with
+  | nil => rw [uripostPass]
+  | cons b r =>
+    have hc := cut_no_sep LF (b :: r) hl
+    rw [uripostPass]
+    simp [hc]
+
+/-! ### what "the entries, wrapping around" means, spelled out -/
+
+/-- position `i` of the delivery is entry `i mod n` of the pass: file order, wrap-around, nothing dropped,
+duplicated or merged; and exactly `k` are delivered -/
+theorem C07_wraparound {α : Type} (pass : List α) (hne : pass ≠ []) (k : Nat) :
+    (cycled pass k).2 = .eof ∧ (cycled pass k).1.length = k ∧
+    ∀ i, i < k → (cycled pass k).1[i]? = pass[i % pass.length]? := by
+  have he : pass.isEmpty = false := by cases pass <;> simp_all
+  have hc : cycled pass k = (cycleTake pass k, .eof) := by simp [cycled, he]
+  rw [hc]
+  exact ⟨rfl, cycleTake_length pass hne k, fun i hi => cycleTake_get pass hne k i hi⟩
+
+/-- header lines are forgotten at each new pass: the delivery one pass later is the same ammo (same effective
+header set), not the one with the headers accumulated until the end of the file -/
+theorem C07_headers_forgotten {α : Type} (pass : List α) (hne : pass ≠ []) (k i : Nat) (hi : i + pass.length < k) :
+    (cycled pass k).1[i + pass.length]? = (cycled pass k).1[i]? := by
+  obtain ⟨_, _, h⟩ := C07_wraparound pass hne k
+  rw [h _ hi, h i (by omega), Nat.add_mod_right]
+
+/-- one pass has exactly one ammo per request entry (header lines produce none) -/
+theorem C07_count (f : Fmt) (hf : f ≠ .raw) (items : List Item) (hi : itemsOK f items = true) :
+    ∀ h, (expAmmo f h items).length = countReqs items := by
+  induction items with
+  | nil => intro h; rfl
+  | cons it r ih =>
+    intro h
+    simp only [itemsOK, List.all_cons, Bool.and_eq_true] at hi
+    have ihr := ih (by simpa [itemsOK] using hi.2)
+    cases it with
+    | hdr k v => simp only [expAmmo, countReqs]; exact ihr _
+    | req u t b => simp only [expAmmo, countReqs, List.length_cons]; rw [ihr]
+    | frame t fr => cases f <;> simp_all [itemOK]
+
+theorem C07_count_raw (items : List Item) (hi : itemsOK .raw items = true) :
+    (expFrames items).length = countReqs items := by
+  induction items with
+  | nil => rfl
+  | cons it r ih =>
+    simp only [itemsOK, List.all_cons, Bool.and_eq_true] at hi
+    have ihr := ih (by simpa [itemsOK] using hi.2)
+    cases it with
+    | hdr k v => simp [itemOK] at hi
+    | req u t b => simp [itemOK] at hi
+    | frame t fr => simp only [expFrames, countReqs, List.length_cons]; rw [ihr]
+
+/-! ### from decoded ammo to the request the gun receives (`BuildRequest`), and the executable Spec -/
+
+/-- on request targets where the model knows `net/url`, every delivered ammo materialises (`Acquire` →
+`BuildRequest`) into the request written in the file: method, target, Host, effective headers, body, tag.
+`cfg` is the provider's `headers` option (any, also empty): it only fills in keys the file did not define. -/
+theorem C07_requests (f : Fmt) (hf : f ≠ .raw) (cfg : Hdrs) (items : List Item) (k : Nat) (hk : targetsKnown items = true) :
+    ((cycled (expAmmo f [] items) k).1.map (Ammo.withCfg cfg)).map buildReq
+      = (cycleTake (expReqs f cfg [] items) k).map some := by
+  have hmap := expAmmo_buildReq f hf cfg items [] hk
+  unfold cycled
+  split
+  · rename_i he
+    have : expReqs f cfg [] items = [] := by
+      have hl := congrArg List.length hmap
+      simp only [List.length_map, List.isEmpty_iff.mp he, List.length_nil] at hl
+      exact List.length_eq_zero_iff.mp hl.symm
+    simp [this, cycleTake_nil]
+  · simp only
+    rw [cycleTake_map, cycleTake_map, hmap, ← cycleTake_map]
+
+/-- headers written in the ammo file have priority over the `headers` option, for every key and every option list -/
+theorem C07_file_headers_win (cfg h : Hdrs) (key v : Bytes) (hk : hget h key = some v) :
+    hget (mergeCfg h cfg) key = some v :=
+  mergeCfg_keeps cfg h key v hk
+
+/-- the executable Spec (`judge`, the same function that is evaluated on the REAL provider's observation)
+accepts what the uri model delivers, for all entries, layouts, limits, modes and `headers` options -/
+theorem C07_uri_spec (cfg : Hdrs) (items : List Item) (lay : Layout) (k : Nat) (pre : Bool)
+    (hi : itemsOK .uri items = true) (hl : layoutOK lay = true) (hf : linesFit (render .uri items lay) = true)
+    (hk : targetsKnown items = true) :
+    ∃ e rs, modelObs (withCfgRes cfg (uriDeliver (render .uri items lay) k pre)) = some (e, rs) ∧
+      judge (expected ((expReqs .uri cfg [] items).map reqStr) k) (expectedErr ((expReqs .uri cfg [] items).map reqStr)) rs e = "ok" :=
+  modelObs_ok .uri (by decide) cfg items k hk _ (C07_uri_roundtrip items lay k pre hi hl hf)
+
+theorem C07_uripost_spec (cfg : Hdrs) (items : List Item) (lay : Layout) (k : Nat) (pre : Bool)
+    (hi : itemsOK .uripost items = true) (hl : layoutOK lay = true) (hk : targetsKnown items = true) :
+    ∃ e rs, modelObs (withCfgRes cfg (uripostDeliver true (render .uripost items lay) k pre)) = some (e, rs) ∧
+      judge (expected ((expReqs .uripost cfg [] items).map reqStr) k) (expectedErr ((expReqs .uripost cfg [] items).map reqStr)) rs e = "ok" :=
+  modelObs_ok .uripost (by decide) cfg items k hk _ (C07_uripost_roundtrip items lay k pre hi hl)
+
+/-! ### http/json: entity → request -/
+
+/-- after `encoding/json`: every entity becomes the request it describes (`http://host` + uri, Host, method
+defaulting to GET, headers, body, tag), in order, wrapping around — in stream mode, array mode and preload -/
+theorem C07_json_mapping (cfg : Hdrs) (array : Bool) (ents : List Entity) (k : Nat) (pre : Bool)
+    (hk : ents.all entityKnown = true) :
+    ∃ as, jsonDeliver array ents k pre = cycled as k ∧ as.length = ents.length ∧
+      (as.map (Ammo.withCfg cfg)).map buildReq
+        = ents.map (fun e => some (entityReq cfg e.host e.method e.uri e.tag e.body e.headers)) := by
+  obtain ⟨as, h1, h2, h3⟩ := jsonPass_known cfg ents hk
+  refine ⟨as, ?_, h2, h3⟩
+  unfold jsonDeliver
+  simp only [h1]
+  cases array <;> simp [deliver_eof, cycled]
+
+/-- an entity with an invalid method stops the delivery with an error instead of being sent as something else -/
+theorem C07_json_badmethod (e : Entity) (r : List Entity) (h : validMethod e.method = false) :
+    jsonPass (e :: r) = ([], .err .badmethod) := by
+  simp [jsonPass, entityAmmo, h]
+
+/-! ### non-vacuity: concrete well-formed files meeting the hypotheses -/
+
+/-- `/a t`, `[X-A: v]`, `/b?q=1 my tag`  (byte strings are written out: `String.toUTF8` does not reduce in the kernel) -/
+def exItems : List Item :=
+  [.req [47, 97] [116] [], .hdr [88, 45, 65] [118], .req [47, 98, 63, 113, 61, 49] [109, 121, 32, 116, 97, 103] []]
+
+/-- uripost: `[Host: example.com]`, `/a` tagged `my tag` with the body `⏎[A: b]⏎3 /x⏎` (a newline, a header
+look-alike and a request look-alike), then `/b` with an empty body -/
+def exPost : List Item :=
+  [.hdr [72, 111, 115, 116] [101, 120, 97, 109, 112, 108, 101, 46, 99, 111, 109],
+   .req [47, 97] [109, 121, 32, 116, 97, 103] [10, 91, 65, 58, 32, 98, 93, 10, 51, 32, 47, 120, 10], .req [47, 98] [] []]
+
+/-- raw: `GET / HTTP/1.1⏎Host: h⏎⏎` tagged `t1`, then the 8 bytes `⏎⏎[x]⏎5⏎` without tag -/
+def exRaw : List Item :=
+  [.frame [116, 49] [71, 69, 84, 32, 47, 32, 72, 84, 84, 80, 47, 49, 46, 49, 13, 10, 72, 111, 115, 116, 58, 32, 104, 13, 10, 13, 10], .frame [] [10, 10, 91, 120, 93, 10, 53, 10]]
+
+/-- blank lines first, padding and CRLF around the entries, no final newline -/
+def exLay : Layout :=
+  { lead := [[], [SP, CR]]
+    per := [{ pre := [SP], post := [9, CR], blanks := [[], [SP]] }, { i1 := [SP], i2 := [9], i3 := [SP, SP], i4 := [SP], post := [CR] }]
+    finalNL := false }
+
+def exLay2 : Layout := { finalNL := true, trail := [SP, 9] }
+
+example : itemsOK .uri exItems = true ∧ layoutOK exLay = true ∧ targetsKnown exItems = true := by decide
+example : itemsOK .uripost exPost = true ∧ layoutOK exLay = true ∧ layoutOK exLay2 = true := by decide
+example : itemsOK .raw exRaw = true := by decide
+
+/-- the uri example: 3 entries in the file, 2 requests per pass, the header applies to the second only -/
+example : expAmmo .uri [] exItems =
+    [{ method := getBytes, url := [47, 97], body := [], tag := [116], hdrs := [] },
+     { method := getBytes, url := [47, 98, 63, 113, 61, 49], body := [], tag := [109, 121, 32, 116, 97, 103], hdrs := [([88, 45, 65], [118])] }] := by
+  decide
+
+/-- the padded CRLF layout without final newline and the plain layout render to different bytes … -/
+example : render .uri exItems exLay ≠ render .uri exItems exLay2 := by decide
+
+/-- … both are well-formed, so `C07_layout_invariant` applies to them -/
+example : wellFormed .uri exItems exLay ∧ wellFormed .uri exItems exLay2 := by
+  refine ⟨⟨by decide, by decide, fun _ => by decide⟩, ⟨by decide, by decide, fun _ => by decide⟩⟩
+
+/-- 2.5 passes over the uripost example (k = 5 with 2 entries per pass): the theorem applies and the result is a
+real delivery (5 requests, no error) -/
+example : (uripostDeliver true (render .uripost exPost exLay) 5 false).1.length = 5
+    ∧ (uripostDeliver true (render .uripost exPost exLay) 5 false).2 = .eof := by
+  rw [C07_uripost_roundtrip exPost exLay 5 false (by decide) (by decide)]
+  have hne : expAmmo .uripost [] exPost ≠ [] := by decide
+  obtain ⟨h1, h2, _⟩ := C07_wraparound _ hne 5
+  exact ⟨h2, h1⟩
+
+example : (rawDeliver (render .raw exRaw exLay2) 3 true).1.length = 3 := by
+  rw [C07_raw_frames exRaw exLay2 3 true (by decide) (by decide)]
+  exact (C07_wraparound _ (by decide) 3).2.1
+
+/-- http/json: a known entity -/
+example : ([{ host := [101, 120, 97, 109, 112, 108, 101, 46, 99, 111, 109], method := [80, 79, 83, 84], uri := [47, 97, 63, 98, 61, 99], tag := [109, 121, 32, 116, 97, 103],
+              body := [123, 125], headers := [([120, 45, 97], [118])] }] : List Entity).all entityKnown = true := by decide
+
 end Pandora.Props.C07
